@@ -330,6 +330,19 @@ theorem map_val_filterMap (W1 : AMat ℚ n) (ind : List (Fin n × Fin n)) (order
     have ht := ih fun x hx => h x (List.mem_cons_of_mem _ hx)
     simp only [List.filterMap_cons, List.getElem?_eq_getElem hk, List.map_cons, ht, keyAt]
 
+/-- **every admissible argsort order is accepted**: for `p` in `[0,1]`, an `order` that is a permutation of the positions of
+`np.where(W)` along which the selected values are non-increasing (whatever it does among ties) makes the model return a result — so the
+hypothesis `= .ok R` of the `tp_*` theorems holds for every order NumPy's `argsort(...)[::-1]` can produce -/
+theorem tp_ok_of_sorting (W : AMat ℚ n) (p : ℚ) (order : List ℕ) (h0 : 0 ≤ p) (h1 : p ≤ 1)
+    (hperm : order.Perm (List.range (support (pre W).W1).length))
+    (hsorted : ((order.filterMap fun k => (support (pre W).W1)[k]?).map
+      fun c => (pre W).W1.get c.1 c.2).Pairwise (· ≥ ·)) :
+    ∃ R, thresholdProportional W p order = .ok R := by
+  unfold thresholdProportional
+  rw [if_neg (by push Not; exact ⟨h1, h0⟩)]
+  simp only [selection, if_pos hperm, if_pos hsorted]
+  exact ⟨_, rfl⟩
+
 /-- a descending sorting permutation always exists (e.g. the one a stable sort produces), hence the
 success hypothesis of the `tp_*` theorems is satisfiable for every matrix and every `p ∈ [0,1]` -/
 theorem tp_total (W : AMat ℚ n) (p : ℚ) (h0 : 0 ≤ p) (h1 : p ≤ 1) :
@@ -386,6 +399,8 @@ example : (nnzCount Wasy : ℤ) = 1 * min 5 3 := by
   have h2 : enOf 3 (7 / 8) false = 5 := by decide +kernel
   have h3 : (support (pre Wasy).W1).length = 3 := by decide +kernel
   rw [h1, h2, h3] at this; exact this
+example : ∃ R, thresholdProportional Wsym (1 / 2) [2, 1, 0] = .ok R :=
+  tp_ok_of_sorting Wsym (1 / 2) [2, 1, 0] (by norm_num) (by norm_num) (by decide +kernel) (by decide +kernel)
 example : ∀ i, Rsym.get i i = 0 := tp_diag run_sym
 example : ∀ i j, Rsym.get i j = Rsym.get j i := tp_symm_input run_sym (by decide +kernel)
 example : (pre Wsym).W1.get 0 1 ≤ (pre Wsym).W1.get 0 2 :=
